@@ -104,6 +104,10 @@ pub struct Profile {
     pub p_teleport: u32,
     /// fast-forward (with empty blocks) before the first step: classes by cfg.val
     pub warp: bool,
+    /// mainnet/testnet histories start above every legacy-compatibility height (via the TIP-906 barrier)
+    pub start_past_legacy: bool,
+    /// a third of the ordinary transactions try to spend the first output of a staking transaction
+    pub prefer_staked: bool,
 }
 
 impl Profile {
@@ -121,6 +125,8 @@ impl Profile {
             restart_replaces: true,
             p_teleport: 0,
             warp: false,
+            start_past_legacy: false,
+            prefer_staked: false,
         }
     }
 }
@@ -690,7 +696,18 @@ impl<'a> Builder<'a> {
     }
 
     fn build_normal(&mut self, tp: &TxPlan, new_token: bool) -> Option<Built> {
-        let inputs = pick_inputs(&tp.ins, &mut self.avail, &[]);
+        let mut ins = tp.ins.clone();
+        if self.p.prefer_staked && tp.amount % 3 == 0 {
+            let staked: Vec<TxHash> = self.w.staked_txs.iter().map(|x| x.0).collect();
+            let cands: Vec<usize> = self.avail.iter().enumerate().filter(|(_, c)| c.id.index == 0 && staked.contains(&c.id.txhash)).map(|(i, _)| i).collect();
+            if !cands.is_empty() {
+                let i = cands[sel(tp.pool, cands.len())];
+                let c = self.avail.remove(i);
+                self.avail.insert(0, c);
+                ins.insert(0, 0);
+            }
+        }
+        let inputs = pick_inputs(&ins, &mut self.avail, &[]);
         if inputs.is_empty() {
             return None;
         }
@@ -1223,6 +1240,24 @@ pub fn run_plan(plan: &Plan, profile: &Profile, mon: &mut dyn Monitor, st: &mut 
     let mut snap = w.snap();
     mon.on_start(&w, st)?;
     let mut txs_in_block = 0usize;
+    if profile.start_past_legacy && refstf::legacy_net(w.net) {
+        let barrier = if w.net == NetID::Mainnet { 829_999 } else { 499 };
+        if !teleport(&mut w, barrier, st) {
+            return Ok(());
+        }
+        // cross the TIP-906 activation honestly
+        for _ in 0..2 {
+            match w.seal(None) {
+                Outcome::Ok(_) => {}
+                _ => return Ok(()),
+            }
+        }
+        if !teleport(&mut w, 979_000, st) {
+            return Ok(());
+        }
+        snap = w.snap();
+        st.class("started-past-legacy-heights");
+    }
     if profile.warp && w.net == NetID::Testnet {
         // fast-forward with empty blocks to just below the testnet activation height
         let target = match plan.cfg.val % 4 {
@@ -1298,6 +1333,11 @@ pub fn run_plan(plan: &Plan, profile: &Profile, mon: &mut dyn Monitor, st: &mut 
                                 if w.wallet.len() < 48 {
                                     w.wallet.push(WCoin { id, cdh, cov: spec });
                                 }
+                            }
+                        }
+                        if tx.kind == TxKind::Stake {
+                            if let Ok(doc) = stdcode::deserialize::<StakeDoc>(&tx.data) {
+                                w.staked_txs.push((tx.hash_nosigs(), doc, CovSpec::True));
                             }
                         }
                         if tx.kind == TxKind::Faucet {
@@ -1491,9 +1531,9 @@ fn do_seal(w: &mut World, snap: &mut Snap, action: Option<ProposerAction>, mon: 
 /// the one-off TIP-906 initialisation (830 000 on mainnet, 500 on testnet).
 pub fn teleport_target(net: NetID, cur: u64, c: u8) -> Option<u64> {
     let list: &[u64] = match net {
-        NetID::Mainnet => &[42_699, 179_999, 199_999, 499_999, 829_999, 899_999, 949_999, 978_391, 1_047_999, 1_199_999, 1_949_999],
-        NetID::Testnet => &[499, 199_999, 399_999, 499_999, 899_999, 978_391, 1_199_999],
-        _ => &[199_999, 399_999, 599_999, 949_999, 1_949_999],
+        NetID::Mainnet => &[42_699, 179_999, 199_999, 499_999, 829_999, 899_999, 949_999, 978_391, 999_999, 1_047_999, 1_199_999, 1_399_999, 1_599_999, 1_949_999],
+        NetID::Testnet => &[499, 199_999, 399_999, 499_999, 899_999, 978_391, 999_999, 1_199_999, 1_399_999, 1_599_999],
+        _ => &[199_999, 399_999, 599_999, 799_999, 999_999, 1_199_999, 1_949_999],
     };
     let mut t = list[c as usize % list.len()];
     let barrier = match net {
